@@ -9,7 +9,11 @@ fail=0
 for s in $(seq $first $last); do
   for p in $ids; do
     out=$(VERIF_SEED=$s ./check $p $tier --no-evidence 2>&1); rc=$?
-    if [ $rc -ne 0 ]; then fail=1; echo "SEED $s $p rc=$rc"; echo "$out" | grep -E "VIOLATION|rule=|HARNESS" | cut -c1-400; fi
+    if [ $rc -ne 0 ]; then
+      fail=1; echo "SEED $s $p rc=$rc"; echo "$out" | grep -E "VIOLATION|rule=|HARNESS" | cut -c1-400
+      # keep the replay files: the next run of this property cleans replays/
+      mkdir -p sweep_failures/seed$s && cp replays/$p-* sweep_failures/seed$s/ 2>/dev/null
+    fi
   done
   echo "seed $s done"
 done
